@@ -21,9 +21,17 @@ TRUSTED = [
 def mkind(m):
     from torchlogix.layers import LogicDense, LogicConv2d, LogicConv3d, OrPooling, GroupSum
     if type(m) is LogicDense:
+        if any(int(i.min()) < 0 or int(i.max()) >= m.in_dim for i in m.indices):
+            return '(MForeign "LogicDense with wiring outside its input")'
         return f"MDense {m.in_dim} {m.out_dim}"
     if type(m) in (LogicConv2d, LogicConv3d):
         dims = len(m.in_dim)
+        lim = [int(n) + 2 * int(m.padding or 0) for n in m.in_dim] + [m.channels]
+        for t in m.indices[0]:
+            t2 = t.reshape(-1, dims + 1)
+            if int(t2.min()) < 0 or any(int(t2[:, d].max()) >= L for d, L in enumerate(lim)):
+                return '(MForeign "logic convolution with wiring outside its padded input")'
+
         rf = list(m.receptive_field_size) if isinstance(m.receptive_field_size, (tuple, list)) else [m.receptive_field_size] * dims
         return f"MConv {m.channels} {nets._nl(m.in_dim)} {nets._nl(rf)} {m.stride} {m.padding} {m.num_kernels}"
     if type(m) is OrPooling:
@@ -115,6 +123,22 @@ def catalogue(ck):
     # the same module objects at several positions: every application must be compiled
     add("shared-dense", lambda: (lambda d: S(d, d, G(2)))(D(4, 4)))
     add("shared-pool", lambda: (lambda p_: S(C(5, 1, 2), p_, C(3, 2, 2, rf=1), p_, F(), G(2)))(P(2, 1, 0)))
+    # hand-made wiring with Python-style negative indices (PyTorch wraps them around; C does not)
+    def neg_dense():
+        d = D(6, 4)
+        a, b = d.indices
+        a = a.clone(); a[0] = -1
+        d.indices = (a, b)
+        return S(d, G(2))
+
+    def neg_conv_channel():
+        c = C(3, 2, 2)
+        ia, ib = c.indices[0]
+        ia = ia.clone(); ia[0, 0, 0, 2] = -1
+        c.indices[0] = (ia, ib)
+        return S(c, F(), G(2))
+    add("wiring-negative-dense", neg_dense)
+    add("wiring-negative-conv-channel", neg_conv_channel)
     # containers whose forward is not the plain chain
     class OrChain(torch.nn.Sequential):
         def forward(self, x):
